@@ -1,11 +1,38 @@
 PROP = dict(
     level="exploration",
     design_ref="DESIGN.md §3 C28",
-    technique="rapid history-based property testing of the mount change planner and recorder with a simulated Change.Perform, plus round-trip testing of the mount entry/profile codec",
-    level_text="TODO",
-    level_note="TODO",
-    rule="TODO",
-    assumptions=[],
+    technique="rapid history-based property testing of the real mount change planner and recorder (NeededChanges + executeMountProfileUpdate) "
+              "with a simulated Change.Perform on a real scratch tree, judged by invariants over the planned change list and the mount history; "
+              "round-trip testing of the mount entry / profile codec",
+    level_text="history: generated histories of 2-5 desired mount profiles (nested and look-alike paths such as a/b vs a/bc, bind/rbind/tmpfs/"
+               "file/symlink/ensure-dir kinds, layout/overname/content origins, unclean mount points, explicit entry ids, optional rootfs entry) "
+               "are applied with the real executeMountProfileUpdate over a generated pre-existing directory tree; profiles travel as fstab text "
+               "like in the real program and the current profile of each step is what the previous update saved. Only Change.Perform is "
+               "replaced: it succeeds, fails, or reports writable-mimic entries in the form createWritableMimic reports them, and optionally "
+               "creates/removes mount points on disk. Every planned change list is checked: each current entry exactly once kept or unmounted "
+               "(detach for tmpfs/bind/rbind), kept+mounted = desired plus only rootfs and still-needed synthetic entries, unchanged entries not "
+               "beneath a changed one are kept, rootfs never touched, no parent unmounted before a child that the harness saw mounted later, "
+               "same-origin mounts parent first and overname first; performed changes = planned changes, the saved profile holds exactly the "
+               "kept, reported synthetic and successfully mounted entries, a failing layout/overname change aborts without saving. "
+               "codec: ParseMountEntry(e.String()) == e, Unescape(Escape(s)) == s and profile text/file write->read identity for entries over an "
+               "alphabet rich in blanks, backslashes, escape look-alikes, '#', Unicode white space and control characters; arbitrary lines never "
+               "panic the parser. Sampled, not complete.",
+    level_note="The planner and recorder are real; the effect of a change on the kernel mount table is simulated (mount order is tracked by the "
+               "harness, mimic reports are modelled on planWritableMimic/execWritableMimic: one synthetic tmpfs per directory plus one synthetic "
+               "bind per pre-existing directory/file in it). The saved order of the profile is judged only through the unmount-order clause of "
+               "later steps. An unchanged entry beneath a changed one may be kept or remounted (the statement leaves it open).",
+    rule="history: rapid draws a directory tree (0-6 nodes: dirs, files, symlinks) and 2-5 steps; each step's desired profile is derived from the "
+         "previous one (keep / change source / change kind / drop each entry, add 0-4 new entries whose paths extend or look like existing ones, "
+         "unchanged profile, empty profile) plus a failure plan, a mimic plan (none / chosen mounts / read-only base) and whether mount points are "
+         "materialised; desired lists are normalised to the stated domain (one entry per mount point, nothing nested beneath file/symlink entries, "
+         "overname only on bind mounts, ensure-dir without origin). Non-trivial = some step keeps, unmounts and mounts entries at once while "
+         "current+desired contain nested mount points. codec: 1-4 entries with fields built from a token alphabet (blank, tab, newline, backslash, "
+         "\\040-style look-alikes, '#', '=', Unicode spaces, NUL, arbitrary short strings) within the domain (fields non-empty, not starting with "
+         "'#', >=1 option, options non-empty and comma-free) plus junk lines; non-trivial = some field contains space, tab, newline or backslash. "
+         "Distinct by hash of the case.",
+    assumptions=["Change.Perform is simulated; reported synthetic entries follow the shape produced by execWritableMimic and a mimic is created at most once per directory while its tmpfs is recorded",
+                 "desired profiles have one entry per mount point and never nest entries beneath file or symlink entries",
+                 "after a failing layout/overname change the real program exits without saving; the history ends there"],
     engines=[
         gt("history", "cmd/snap-update-ns", "TestVerifC28History", dict(checks=3000, shards=2), dict(checks=30000, shards=16),
            build_env={"CGO_CFLAGS": "-I/verif/harness/cstubs"}),
